@@ -139,6 +139,7 @@ def r3_roles(ctx, chk, rule="C05.3"):
 
 
 def run(ctx, chk):
+    shared.rule_no_keyed_collapse(ctx, chk, "C05.0:keyed", ("get_best_strategies_total_rewards", "get_worst_strategies_total_rewards", "prune_paths_reachability"))      # parallel transitions are separate transitions
     # observed through the batch driver: run_games()[name]['final_strategies', 'reachability_strategies'] must be this game's, this mode's value
     from . import C12 as _C12
     _C12.observe(ctx, chk, "C05.obs", ['final_strategies', 'reachability_strategies'])
